@@ -28,7 +28,7 @@ def collect(only):
     items = []
     for p in sorted(glob.glob(os.path.join(VERIF, 'mutants', '*', '*.patch'))):
         h = header(p); prop = h.get('property') or os.path.basename(os.path.dirname(p))
-        items.append({'id': 'mutants/%s/%s' % (prop, os.path.basename(p)[:-6]), 'patch': p, 'property': prop, 'configs': h.get('configs'), 'runs': h.get('runs')})
+        items.append({'id': 'mutants/%s/%s' % (prop, os.path.basename(p)[:-6]), 'patch': p, 'property': prop, 'configs': h.get('configs'), 'runs': h.get('runs'), 'tier': h.get('tier')})
     for d in sorted(glob.glob(os.path.join(VERIF, 'seeded', '*'))):
         mp = os.path.join(d, 'meta.json'); pp = os.path.join(d, 'patch.diff')
         if os.path.exists(mp) and os.path.exists(pp):
@@ -48,7 +48,7 @@ def run_one(item, tier, repo='/repo'):
             r = subprocess.run(['patch', '-p1', '-s', '-d', scratch, '-i', item['patch']], capture_output=True, text=True)
             if r.returncode != 0:
                 return {'id': item['id'], 'status': 'PATCH-DOES-NOT-APPLY', 'detail': (r.stdout + r.stderr)[-400:]}
-        cmd = [sys.executable, os.path.join(HERE, 'check.py'), item['property'], '--tier', tier, '--repo', scratch, '--no-evidence']
+        cmd = [sys.executable, os.path.join(HERE, 'check.py'), item['property'], '--tier', item.get('tier') or tier, '--repo', scratch, '--no-evidence']
         if item.get('configs'):
             cmd += ['--configs', item['configs']]
         if item.get('runs'):
